@@ -48,7 +48,7 @@ def run(rep):
                         "the {:.1} text rendering is outside the claim"]
     res = base.run_obligations(rep, [(kernels.qibla, None)])
     cands = [c for x in res for c in x["cands"]]
-    if cands:
+    if cands or any(x["inconclusive"] for x in res):
         import random
         rnd = random.Random(int(os.environ.get("VERIF_SEED", "0") or 0))
         pts = [(c["inputs"].get("lat") or 0.0, c["inputs"].get("lon") or 0.0, c["inputs"].get("elev") or 0.0) for c in cands[:20]]
@@ -60,7 +60,7 @@ def run(rep):
             found.setdefault(key, []).append((desc, c, r))
         for key, items in found.items():
             rep.violation(key, items[0][0] + (" (+%d more)" % (len(items) - 1) if len(items) > 1 else ""), [x[1] for x in items[:5]], items[0][2])
-        if not found:
+        if not found and cands:
             rep.inconclusive.append("solver counterexample not reproduced natively: %r" % (cands[:1],))
     rep.samples = [{"obligation": o["name"], "status": o["status"], "paths": o.get("paths"), "queries": o.get("queries")} for o in rep.obligations]
 
